@@ -50,6 +50,9 @@ func init() {
 			if o.Kind == KMap {
 				o.Suggested = []string{"os=", "arch=", "debug"}
 			}
+			if o.Kind.IsMulti() && i%5 == 2 {
+				o.Max = 1 << 62 // "unlimited"
+			}
 			if o.Kind == KInt && i%4 == 1 {
 				o.ArgName = "n" + strings.Repeat("x", 95) // a synopsis entry wider than the wrapping column
 			}
